@@ -378,3 +378,43 @@ m('C11', '_mp.solve: module-level cache', MP,
 n('C11', 'process_map: executor renamed', MP,
   "        with ProcessPoolExecutor(max_workers=max_workers) as ex:\n            return list(ex.map(fn, *iterables))",
   "        with ProcessPoolExecutor(max_workers=max_workers) as pool:\n            return list(pool.map(fn, *iterables))")
+
+# ------------------------------------------------------------------- C05
+m('C05', '_max_level: n > 2 -> n > 1', SOLVER,
+  "            while n % 2 == 0 and n > 2:", "            while n % 2 == 0 and n > 1:",
+  'C05.H1')
+m('C05', '_current_sc_dir: < 3 -> < 2 for x', SOLVER,
+  "    xsc_dir = (grid.shape_cells[0] % 2 != 0 or grid.shape_cells[0] < 3",
+  "    xsc_dir = (grid.shape_cells[0] % 2 != 0 or grid.shape_cells[0] < 2",
+  'C05.H1')
+m('C05', 'multigrid: recursion passes level', SOLVER,
+  "multigrid(cmodel, csfield, cefield, var, level=level+1,",
+  "multigrid(cmodel, csfield, cefield, var, level=level,", 'C05.H3')
+m('C05', 'multigrid: next(sc_cycle) moved before the level test', SOLVER,
+  "        # End loop depending if we are on the original grid or not.\n        if level > 0:  # Update cyc if on a coarse grid.",
+  "        if var.sc_cycle:\n            var.sc_dir = next(var.sc_cycle)\n        if level > 0:  # Update cyc if on a coarse grid.",
+  'C05.H4')
+m('C05', 'multigrid: lr cycle advanced twice', SOLVER,
+  "                var.lr_dir = next(var.lr_cycle)\n",
+  "                var.lr_dir = next(var.lr_cycle)\n                var.lr_dir = next(var.lr_cycle)\n",
+  'C05.H4')
+m('C05', 'multigrid: F-cycle hands down cycmax', SOLVER,
+  "                      new_cycmax=cycmax-cyc)", "                      new_cycmax=cycmax)",
+  'C05.H7')
+m('C05', '_solver_and_cycle: W-cycle with cycmax 1', SOLVER,
+  "        if self.cycle in ['F', 'W']:", "        if self.cycle in ['F']:", 'C05.H7')
+m('C05', 'multigrid: cycmax chain ignores F', SOLVER,
+  "    elif new_cycmax == 0 or var.cycle != 'F':",
+  "    elif new_cycmax == 0 or var.cycle == 'F':", 'C05.H7')
+m('C05', '_max_level: user limit compares with >', SOLVER,
+  "            if self.clevel > -1 and self.clevel < clevel[i]:",
+  "            if self.clevel > -1 and self.clevel > clevel[i]:", 'C05.H1')
+m('C05', 'smoothing two-cell test <= 3 (via _current_lr_dir)', SOLVER,
+  "    if grid.shape_cells[0] == 2:  # Check x-direction.",
+  "    if grid.shape_cells[0] <= 3:  # Check x-direction.", 'C05.H2')
+m('C05', 'multigrid: it incremented only on coarse levels', SOLVER,
+  "        it += 1         # Local iterator.\n        if level == 0:  # Global iterator (works also when preconditioner.)\n            var.it += 1",
+  "        if level == 0:  # Global iterator (works also when preconditioner.)\n            var.it += 1\n        else:\n            it += 1",
+  'C05.H5')
+n('C05', '_max_level: guard operands swapped', SOLVER,
+  "            while n % 2 == 0 and n > 2:", "            while n > 2 and n % 2 == 0:")
